@@ -130,6 +130,24 @@ theorem C09_get_move_legal (cfg : Cfg) (n : Nat) (hn : 0 < n) (p : Pos) (hwf : p
         rw [this] at hl
         exact hl
 
+/-! ### Closed corollaries for the real engine (`realCfg`: `Impl.winner`, `Gen.allMovesForSize`) -/
+
+/-- whatever index the sampler draws at the root of a tree the real engine built, the returned
+    move is legal in the root position -/
+theorem C09_move_legal_real (cutoff : Rat) (noise : Bool) (mix : Rat) (tol : Tol) (t : Node)
+    (hinv : TreeInv (realCfg cutoff noise mix) tol t) (cs : List Node) (hc : t.children = some cs)
+    (i : Nat) (hi : i < cs.length) :
+    ∃ m, selectRootMove t i = some m ∧ Rules.Legal t.position m :=
+  C09_move_legal (realCfg cutoff noise mix) tol t hinv cs hc i hi
+
+/-- `get_move` of the real engine (adjudication by `Impl.winner`, real move table) on a well-formed
+    position returns a move that is legal in that position — for every budget ≥ 1, every stream of
+    sampler draws and evaluator answers, every final draw -/
+theorem C09_get_move_legal_real (cutoff : Rat) (noise : Bool) (mix : Rat) (n : Nat) (hn : 0 < n) (p : Pos)
+    (hwf : p.WF) (choices : List Nat) (answers : List Answer) (i : Nat) (m : Move)
+    (h : getMove (realCfg cutoff noise mix) n p choices answers i = some m) : Rules.Legal p m :=
+  C09_get_move_legal (realCfg cutoff noise mix) n hn p hwf choices answers i m h
+
 /-! ### Non-vacuity (the concrete search of Props/C08.lean: 3 visits, 2 children, both visited) -/
 
 open Tak.C08 in
